@@ -1,4 +1,5 @@
 import DyntplV.Refine.WriterInterp
+import DyntplV.Refine.LockInterp
 /-!
 # C17 — a failing output writer is always reported to the caller
 
@@ -44,6 +45,37 @@ theorem write_accepts (w : Writer) (p : Bytes) :
   | none => simp
   | some k => by_cases hk : k ≤ w.writes + 1 <;> simp [hk]
 
+/-- **Accepted prefix.** For EVERY tree, registry, context, fuel and fault position `k`: the bytes the writer
+    accepted in the run whose `k`-th (and every later) Write call fails are a prefix of the output of the
+    fault-free run from the same state. (Lockstep of the two runs up to the failing call — `interp_lock` — and
+    no byte is accepted afterwards — `Frozen.interp_mono`; the fault-free output only grows — `interp_frame`.) -/
+theorem accepted_prefix (reg : Registry) (fuel : Nat) (key : Bytes) (s : St) (k : Nat) (h : s.w.failAt = none) :
+    (writeKey reg fuel key (s.wf k)).st.w.out <+: (writeKey reg fuel key s).st.w.out := by
+  cases writeKey_lock reg fuel key k s h with
+  | inl e => rw [e]; exact List.prefix_refl _
+  | inr d => exact d.2
+
+/-- If the fault position was not reached, the two runs are the same run: same result, same output, same
+    context. -/
+theorem same_run_or_dead (reg : Registry) (fuel : Nat) (key : Bytes) (s : St) (k : Nat) (h : s.w.failAt = none) :
+    writeKey reg fuel key (s.wf k) = (writeKey reg fuel key s).wf k ∨
+    Frozen.Dead (writeKey reg fuel key (s.wf k)).st.w :=
+  (writeKey_lock reg fuel key k s h).imp id (fun d => d.1)
+
+/-- **Nothing is accepted after the failure.** Once the writer's fault position has been reached (`Dead`:
+    the next Write call and every later one fail), a render — whatever it does afterwards: loops, else
+    branches, includes, deferred functions — leaves the accepted output exactly as it was. -/
+theorem no_output_after_failure (reg : Registry) (fuel : Nat) (key : Bytes) (s : St) (hd : Frozen.Dead s.w) :
+    (writeKey reg fuel key s).st.w.out = s.w.out :=
+  (writeKey_frozen reg fuel key s hd).2
+
+/-- The same two facts for every node. -/
+theorem node_accepted_prefix (reg : Registry) (f : Nat) (n : Node) (s : St) (k : Nat) (h : s.w.failAt = none) :
+    (writeNode reg f n (s.wf k)).st.w.out <+: (writeNode reg f n s).st.w.out := by
+  cases (interp_lock reg f).2.2.1 n k s h with
+  | inl e => rw [e]; exact List.prefix_refl _
+  | inr d => exact d.2
+
 /-! Non-vacuity: a loop whose separator write is the one that fails (the case the original code dropped). -/
 def sampleLoop : List Node :=
   [.cloop ⟨lit "i", lit "0", true, .inc, .lt, lit "3", true, lit ","⟩ [.raw (lit "x")]]
@@ -51,5 +83,8 @@ def sampleLoop : List Node :=
 example : (write [] 50 sampleLoop { c := {}, w := { failAt := some 2 } }).err = some Err.writer := by decide
 example : (write [] 50 sampleLoop { c := {}, w := { failAt := some 2 } }).st.w.out = lit "x" := by decide
 example : (write [] 50 sampleLoop { c := {}, w := {} }).st.w.out = lit "x,x,x" := by decide
+-- the accepted bytes of the faulty run ("x") are a proper prefix of the fault-free output ("x,x,x")
+example : ((write [] 50 sampleLoop ({ c := {}, w := {} } : St)).st.w.out.take 1) =
+    (write [] 50 sampleLoop (({ c := {}, w := {} } : St).wf 2)).st.w.out := by decide
 
 end DyntplV.C17
